@@ -95,11 +95,17 @@ func (f *Font) MakeGlyphNames() []string {
 		return glyphNames
 	}
 
+	// The cmap and GSUB tables of a font read from a file may refer to
+	// glyphs which are not present in the font.
+	valid := func(gid glyph.ID) bool {
+		return int(gid) < len(glyphNames)
+	}
+
 	if cmap, _ := f.CMapTable.GetBest(); cmap != nil {
 		a, b := cmap.CodeRange()
 		for r := a; r <= b; r++ {
 			gid := cmap.Lookup(r)
-			if glyphNames[gid] != "" {
+			if !valid(gid) || glyphNames[gid] != "" {
 				// This includes the case of unmapped runes (gid == 0).
 				continue
 			}
@@ -118,7 +124,8 @@ func (f *Font) MakeGlyphNames() []string {
 				case *gtab.Gsub1_1:
 					for _, origGid := range sortedGlyphs(subtable.Cov) {
 						newGid := origGid + subtable.Delta
-						if glyphNames[origGid] == "" || glyphNames[newGid] != "" {
+						if !valid(origGid) || !valid(newGid) ||
+							glyphNames[origGid] == "" || glyphNames[newGid] != "" {
 							continue
 						}
 						glyphNames[newGid] = makeVariant(used, glyphNames[origGid])
@@ -127,7 +134,8 @@ func (f *Font) MakeGlyphNames() []string {
 					for _, origGid := range sortedGlyphs(subtable.Cov) {
 						idx := subtable.Cov[origGid]
 						newGid := subtable.SubstituteGlyphIDs[idx]
-						if glyphNames[origGid] == "" || glyphNames[newGid] != "" {
+						if !valid(origGid) || !valid(newGid) ||
+							glyphNames[origGid] == "" || glyphNames[newGid] != "" {
 							continue
 						}
 						glyphNames[newGid] = makeVariant(used, glyphNames[origGid])
@@ -135,11 +143,11 @@ func (f *Font) MakeGlyphNames() []string {
 				case *gtab.Gsub3_1:
 					for _, origGid := range sortedGlyphs(subtable.Cov) {
 						idx := subtable.Cov[origGid]
-						if glyphNames[origGid] == "" {
+						if !valid(origGid) || glyphNames[origGid] == "" {
 							continue
 						}
 						for _, newGid := range subtable.Alternates[idx] {
-							if glyphNames[newGid] == "" {
+							if valid(newGid) && glyphNames[newGid] == "" {
 								glyphNames[newGid] = makeVariant(used, glyphNames[origGid])
 							}
 						}
@@ -148,6 +156,9 @@ func (f *Font) MakeGlyphNames() []string {
 					var nn []string
 					for _, origGid := range sortedGlyphs(subtable.Cov) {
 						idx := subtable.Cov[origGid]
+						if !valid(origGid) {
+							continue
+						}
 						name := glyphNames[origGid]
 						if name == "" {
 							continue
@@ -155,8 +166,14 @@ func (f *Font) MakeGlyphNames() []string {
 						nn = append(nn[:0], name)
 					replLoop:
 						for _, lig := range subtable.Repl[idx] {
+							if !valid(lig.Out) {
+								continue
+							}
 							nn = nn[:1]
 							for _, gid := range lig.In {
+								if !valid(gid) {
+									continue replLoop
+								}
 								if name := glyphNames[gid]; name != "" {
 									nn = append(nn, name)
 								} else {
